@@ -343,6 +343,15 @@ def harness_kill(rec):
         if po.returncode is None and rec.cleanups.get(po.pid, 0) == 0:
             if proc_state(po.pid) in (None, 'Z'):
                 return None          # died already (a wrapper fault that nobody has noticed yet)
+            # never kill a helper that is still starting up: the wrapper consumes its fault plan
+            # (truncate + rewrite of the plan file) before it logs `start`; a SIGKILL in between
+            # leaves an empty plan file behind (seen once on a machine at load 70)
+            deadline = time.time() + 60
+            while not any(e.get('ev') == 'start' and e.get('pid') == po.pid for e in rec.events):
+                if time.time() > deadline or proc_state(po.pid) in (None, 'Z'):
+                    return None
+                time.sleep(0.01)
+                rec.read_log()
             k = requests_read(rec.events, po.pid)
             os.kill(po.pid, signal.SIGKILL)
             os.waitid(os.P_PID, po.pid, os.WEXITED | os.WNOWAIT)
